@@ -142,6 +142,35 @@ func checkCase(c Case) error {
 	} else if len(ch) > 0 {
 		return fmt.Errorf("diff(evaluated HCL export, database) is not empty: %s\nHCL:\n%s", kinds(ch), h)
 	}
+	// the same loop for the schema-scoped document (Driver.InspectSchema -> MarshalHCL of the *schema.Schema): references
+	// inside it are written unqualified, and the parent columns of a self-reference as plain column references
+	s1, err := db.Client.InspectSchema(ctx, "main", nil)
+	if err != nil {
+		return fmt.Errorf("InspectSchema: %v", err)
+	}
+	hs, err := sqlite.MarshalHCL(s1)
+	if err != nil {
+		return fmt.Errorf("MarshalHCL(schema): %v", err)
+	}
+	for dir := 0; dir < 2; dir++ {
+		var s2 schema.Schema
+		if err := sqlite.EvalHCLBytes(hs, &s2, nil); err != nil {
+			return fmt.Errorf("the schema-scoped HCL export does not evaluate: %v\n%s", err, hs)
+		}
+		sc, err := db.Client.InspectSchema(ctx, "main", nil)
+		if err != nil {
+			return fmt.Errorf("InspectSchema: %v", err)
+		}
+		from, to, what := sc, &s2, "diff(database, evaluated schema-scoped HCL export)"
+		if dir == 1 {
+			from, to, what = &s2, sc, "diff(evaluated schema-scoped HCL export, database)"
+		}
+		if ch, err := db.Client.SchemaDiff(from, to, schema.DiffNormalized()); err != nil {
+			return fmt.Errorf("%s: %v", what, err)
+		} else if len(ch) > 0 {
+			return fmt.Errorf("%s is not empty: %s\nHCL:\n%s", what, kinds(ch), hs)
+		}
+	}
 	// SQL export -> run on an empty database -> same database
 	re, _ := db.Inspect(ctx)
 	sqlText, err := sqlExport(ctx, db, re)
